@@ -42,10 +42,77 @@ def check(run):
     check_caches(run, [m for k, m in prog.modules.items() if k.startswith('cherab.tools.inversions')], 'C11-K')
 
 
-def _sart(run, mod, fn, constrained):
+def _roles(fn):
+    """Array name -> role, by following single-definition aliases to the expression that defines the array:
+    G geometry matrix, b measurements, rho = sum_i G_ij, Lr = sum_j G_ij, invL = 1 / Lr, x / xnew the iterates,
+    yhat = G . x, pen = beta (Lap . x)."""
+    ps = [a.arg for a in fn.args.args]
+    G = ps[0]
+    lap = ([p for p in ps if 'laplacian' in p] or [None])[0]
+    bname = [p for p in ps[1:] if p != lap][0]
+    defs = {}
+    for t, v, st in stores(fn):
+        if isinstance(t, ast.Name) and isinstance(st, (ast.Assign, ast.AnnAssign)):
+            defs.setdefault(t.id, []).append(v)
+    role = {G: 'G', bname: 'b'}
+    if lap:
+        role[lap] = 'Lap'
+
+    def classify(name, seen=()):
+        if name in role:
+            return role[name]
+        if name in seen or name not in defs:
+            return None
+        vs = defs[name]
+        rs = set()
+        for v in vs:
+            r = None
+            if isinstance(v, ast.Name):
+                r = classify(v.id, seen + (name,))
+            elif isinstance(v, ast.Call) and dotted(v.func) in ('np.sum', 'numpy.sum') and v.args and isinstance(v.args[0], ast.Name) \
+                    and classify(v.args[0].id, seen + (name,)) == 'G':
+                ax = [k.value for k in v.keywords if k.arg == 'axis'] + list(v.args[1:2])
+                if ax and isinstance(ax[0], ast.Constant):
+                    r = {0: 'rho', 1: 'Lr'}.get(ax[0].value)
+            elif isinstance(v, ast.Call) and isinstance(v.func, ast.Attribute) and v.func.attr == 'sum' and isinstance(v.func.value, ast.Name) \
+                    and classify(v.func.value.id, seen + (name,)) == 'G':
+                ax = [k.value for k in v.keywords if k.arg == 'axis'] + list(v.args[:1])
+                if ax and isinstance(ax[0], ast.Constant):
+                    r = {0: 'rho', 1: 'Lr'}.get(ax[0].value)
+            elif isinstance(v, ast.BinOp) and isinstance(v.op, ast.Div) and norm(v.left) in ('1', '1.0') and isinstance(v.right, ast.Name) \
+                    and classify(v.right.id, seen + (name,)) == 'Lr':
+                r = 'invL'
+            elif isinstance(v, ast.Call) and dotted(v.func) in ('np.dot', 'numpy.dot', 'np.matmul') and len(v.args) == 2 \
+                    and all(isinstance(a, ast.Name) for a in v.args):
+                l, rr = classify(v.args[0].id, seen + (name,)), classify(v.args[1].id, seen + (name,))
+                if l == 'G' and rr in ('x', 'xnew'):
+                    r = 'yhat:' + rr
+                elif l == 'Lap' and rr in ('x', 'xnew'):
+                    r = 'lapx:' + rr
+            elif isinstance(v, ast.BinOp) and isinstance(v.op, ast.Mult):
+                for p_, q_ in ((v.left, v.right), (v.right, v.left)):
+                    if isinstance(p_, ast.Call) and dotted(p_.func) in ('np.dot', 'numpy.dot') and len(p_.args) == 2 and all(isinstance(a, ast.Name) for a in p_.args) \
+                            and classify(p_.args[0].id, seen + (name,)) == 'Lap' and norm(q_) == 'beta_laplace':
+                        r = 'pen:' + str(classify(p_.args[1].id, seen + (name,)))
+            rs.add(r)
+        if len(rs) == 1:
+            return rs.pop()
+        # the iterate: initial guess in several spellings / zeros for the new one
+        return None
+    out = {}
+    for n in list(defs):
+        out[n] = classify(n)
+    out.update(role)
+    return out, defs
+
+
+def _sart(run, mod, fn0, constrained):
+    from ..inline import propagate
+    from ..pathinterp import PathInterp
     run.describe('C11-R1', 'stored solution value is clipped at zero on every path')
     run.describe('C11-R2', 'SART update rule in exact normal form (both branches, penalty in both branches of the constrained variant)')
-    K = '%s|%s|' % (mod.name, fn.name)
+    K = '%s|%s|' % (mod.name, fn0.name)
+    fn = fn0
     outer = [l for l in fn.body if isinstance(l, ast.For)]
     if len(outer) != 1:
         raise AnalysisError('%s: iteration loop not found' % fn.name)
@@ -55,106 +122,288 @@ def _sart(run, mod, fn, constrained):
         raise AnalysisError('%s: cell loop not found' % fn.name)
     cl = cell_loops[0]
     j = cl.target.id
-    # ---- R1
-    sts = [st for st in ast.walk(cl) if isinstance(st, ast.Assign) and norm(st.targets[0]).startswith('solution_new_mv[')]
-    run.subject('C11-R1')
-    ok = False
-    if len(sts) == 1 and isinstance(sts[0].value, ast.Name) and norm(sts[0].targets[0]) == 'solution_new_mv[%s]' % j and sts[0] in cl.body:
-        v = sts[0].value.id
-        idx = cl.body.index(sts[0])
-        prev = cl.body[idx - 1] if idx > 0 else None
-        if isinstance(prev, ast.If) and norm(prev.test) in ('%s < 0' % v, '%s < 0.0' % v, '%s <= 0' % v) and len(prev.body) == 1 \
-                and norm(prev.body[0]) in ('%s = 0.0' % v, '%s = 0' % v) and not prev.orelse:
-            ok = True
-    if ok:
-        run.ok('C11-R1', fn.name + ' clip', 'if x_new < 0: x_new = 0 immediately before the store')
-    else:
-        run.fail('C11-R1', K + 'clip', mod.relpath, (sts[0] if sts else cl).lineno,
-                 '%s stores the new solution value without clipping it at zero on every path: the solution can become negative' % fn.name)
-    # ---- R2: evaluate the cell loop body for both branches
-    pre = {}
-    for tg, v, st in stores(fn):
-        if isinstance(st, ast.Assign) and isinstance(tg, ast.Name):
-            pre.setdefault(tg.id, norm(v))
-    branch = [s for s in cl.body if isinstance(s, ast.If) and 'cell_ray_densities_mv[%s]' % j in norm(s.test)]
-    run.subject('C11-R2')
-    if len(branch) != 1 or norm(branch[0].test) not in ('cell_ray_densities_mv[%s] > 0.0' % j, 'cell_ray_densities_mv[%s] > 0' % j):
-        run.fail('C11-R2', K + 'density-branch', mod.relpath, cl.lineno, '%s does not distinguish cells with zero ray density' % fn.name)
+    roles, defs = _roles(fn)
+    # the iterates: the array returned is x; the array stored in the cell loop is xnew
+    rets = [r for r in ast.walk(fn) if isinstance(r, ast.Return) and r.value is not None]
+    xname = None
+    if rets and isinstance(rets[-1].value, ast.Tuple) and isinstance(rets[-1].value.elts[0], ast.Name):
+        xname = rets[-1].value.elts[0].id
+    sts = [st for st in ast.walk(cl) if isinstance(st, ast.Assign) and isinstance(st.targets[0], ast.Subscript) and isinstance(st.targets[0].value, ast.Name)]
+    if xname is None or not sts:
+        run.subject('C11-R2')
+        run.undecided('C11-R2', fn.name, 'iterate arrays not recognised')
         return None
-    br = branch[0]
-    e = SymEval({'x_j': L('X')})
-    pre_stmts = [s for s in cl.body if cl.body.index(s) < cl.body.index(br)]
-    run_block(e, pre_stmts)
-    xj = e.env.get('x_j')
-    # positive-density branch
-    e1 = SymEval(dict(e.env))
-    inner = [l for l in ast.walk(br) if isinstance(l, ast.For)]
-    obs_term = None
-    skip_ok = False
-    if len(inner) == 1:
-        il = inner[0]
-        i = il.target.id
-        e2 = SymEval(dict(e.env))
-        e2.env['obs_diff'] = L('OD0')
-        body = [s for s in il.body if not isinstance(s, ast.If)]
-        run_block(e2, body)
-        obs_term = e2.env['obs_diff'] - L('OD0')
-        sk = [s for s in il.body if isinstance(s, ast.If)]
-        skip_ok = len(sk) == 1 and norm(sk[0].test) in ('ray_lengths_mv[%s] == 0' % i, 'ray_lengths_mv[%s] == 0.0' % i) \
-            and isinstance(sk[0].body[0], ast.Continue) and il.body.index(sk[0]) == 0 and norm(il.iter) == 'range(m_observations)'
-        want_term = L('geometry_matrix_mv[%s,%s]' % (i, j)) * L('inv_ray_lengths_mv[%s]' % i) * (L('obs_vector_mv[%s]' % i) - L('y_hat_vector_mv[%s]' % i))
-        if not obs_term.eq(want_term):
-            run.fail('C11-R2', K + 'obs-term', mod.relpath, il.lineno,
-                     '%s accumulates %s per observation; documented: (W_ij / L_i) (b_i - yhat_i)' % (fn.name, obs_term))
-            obs_term = None
-        elif not skip_ok:
-            run.fail('C11-R2', K + 'zero-length-rows', mod.relpath, il.lineno, '%s does not skip observations whose ray length is zero' % fn.name)
-            obs_term = None
-    e1.env['obs_diff'] = L('OBS')
-    body1 = [s for s in br.body]
-    flat = []
-    for s in body1:
-        if isinstance(s, ast.With):
-            flat.extend(s.body)
-        elif not isinstance(s, ast.For) and not (isinstance(s, ast.Assign) and norm(s.targets[0]) == 'obs_diff'):
-            flat.append(s)
-    run_block(e1, flat)
-    got1 = e1.env.get('x_j_new')
-    pen = L('grad_penalty_mv[%s]' % j) if constrained else C(0)
-    want1 = L('solution_mv[%s]' % j) + L('relaxation') / L('cell_ray_densities_mv[%s]' % j) * L('OBS') - pen
-    e0 = SymEval(dict(e.env))
-    run_block(e0, br.orelse)
-    got0 = e0.env.get('x_j_new')
-    want0 = L('solution_mv[%s]' % j) - pen
-    ok = obs_term is not None and got1 is not None and got0 is not None and got1.eq(want1) and got0.eq(want0) and norm(cl.iter) == 'range(n_sources)'
-    if ok:
+
+    def root(n, seen=()):
+        vs = defs.get(n, [])
+        if len(vs) == 1 and isinstance(vs[0], ast.Name) and n not in seen:
+            return root(vs[0].id, seen + (n,))
+        return n
+    xnew_root = root(sts[0].targets[0].value.id)
+    for n in list(defs) + [xname]:
+        r = root(n)
+        if r == root(xname):
+            roles[n] = 'x'
+        elif r == xnew_root:
+            roles[n] = 'xnew'
+    # classification depends on x / xnew: redo for the derived arrays
+    roles2, _ = _roles_with(fn, roles)
+    roles = roles2
+    idxvars = {}
+
+    class SartEval(SymEval):
+        def subscript(self, n):
+            if isinstance(n.value, ast.Name) and n.value.id in roles and roles[n.value.id]:
+                r = roles[n.value.id]
+                sl = n.slice.elts if isinstance(n.slice, ast.Tuple) else [n.slice]
+                ix = ','.join(self.ev(e).key() for e in sl)
+                if r == 'invL':
+                    return C(1) / L('Lr[%s]' % ix)
+                if r.startswith('pen:'):
+                    return L('beta_laplace') * L('lapx:%s[%s]' % (r[4:], ix))
+                return L('%s[%s]' % (r, ix))
+            return super().subscript(n)
+
+        def call(self, n):
+            if dotted(n.func) in ('max', 'fmax') and len(n.args) == 2:
+                a, b2 = self.ev(n.args[0]), self.ev(n.args[1])
+                z, o = (a, b2) if a.is_const() else (b2, a)
+                if z.is_const() and z.const_value() == 0:
+                    return L('CLIP0(%s)' % o.key())
+            return super().call(n)
+    synth = ast.FunctionDef(name='cell', args=ast.arguments(posonlyargs=[], args=[], kwonlyargs=[], kw_defaults=[], defaults=[]),
+                            body=propagate(ast.FunctionDef(name='cell', args=fn.args, body=list(cl.body), decorator_list=[], lineno=cl.lineno)).body,
+                            decorator_list=[], lineno=cl.lineno)
+    xnew_names = tuple(n for n, r in roles.items() if r == 'xnew')
+    pi = PathInterp(synth, (), {}, evaluator=SartEval, store_prefixes=tuple(x + '[' for x in xnew_names), max_paths=64)
+    try:
+        paths = pi.run()
+    except RuntimeError as e:
+        run.subject('C11-R2')
+        run.undecided('C11-R2', fn.name, str(e))
+        return None
+    X = L('x[%s]' % j)
+    pen = (L('beta_laplace') * L('lapx:x[%s]' % j)) if constrained else C(0)
+    r1_bad, r2_bad, r2_undec, n_paths = [], [], [], 0
+    obs_seen = False
+    for p in paths:
+        st = [s for s in p.stores]
+        if len(st) != 1:
+            r2_undec.append('a path stores the new value %d times' % len(st))
+            continue
+        key, val, tags, node, aug = st[0]
+        n_paths += 1
+        dec = dict(p.decisions)
+        # --- R1: value is 0, CLIP0(..), or a clip test on the stored value is recorded as false on this path
+        clipped = (val.is_const() and val.const_value() == 0) or any(l.startswith('CLIP0(') for l in val.leaves()) and len(val.leaves()) == 1
+        if not clipped:
+            tests = [(k2, b2) for k2, b2 in dec.items() if re.match(r'^(\w+) (<|<=) 0(\.0)?$', k2) and not b2] + \
+                    [(k2, b2) for k2, b2 in dec.items() if re.match(r'^(\w+) (>|>=) 0(\.0)?$', k2) and b2]
+            clipped = bool(tests) and _tests_stored_value(synth, node, tests)
+        if not clipped:
+            r1_bad.append((dec, val))
+            continue
+        if val.is_const() or (len(val.leaves()) == 1 and list(val.leaves())[0].startswith('CLIP0(')):
+            if val.is_const():
+                continue
+        # --- R2
+        dens = _decision(dec, 'rho[%s]' % j, roles, positive=True)
+        ray = None
+        rk = [k2 for k2 in dec if re.search(r'\b(%s)\[' % '|'.join(re.escape(n) for n, r in roles.items() if r in ('Lr', 'invL')), k2)]
+        if rk:
+            ray = _decision(dec, None, roles, positive=False, keys=rk)
+        if dens is None:
+            r2_undec.append('no test of the ray density of the cell on a path: %s' % dec)
+            continue
+        want0 = X - pen
+        if not dens:
+            if not val.eq(want0):
+                r2_bad.append(('rho_j = 0', val, want0))
+            continue
+        i = None
+        for lp in ast.walk(synth):
+            if isinstance(lp, ast.For) and isinstance(lp.target, ast.Name):
+                i = lp.target.id
+        if i is None:
+            r2_undec.append('no loop over the observations')
+            continue
+        term = L('G[%s,%s]' % (i, j)) / L('Lr[%s]' % i) * (L('b[%s]' % i) - L('yhat:x[%s]' % i))
+        if ray is None:
+            r2_bad.append(('rows with zero ray length are not skipped', val, None))
+            continue
+        want1 = X + L('relaxation') / L('rho[%s]' % j) * (term if not ray else C(0)) - pen
+        if not ray:
+            obs_seen = True
+        if not val.eq(want1):
+            r2_bad.append(('rho_j > 0, L_i %s 0' % ('=' if ray else '!='), val, want1))
+    run.subject('C11-R1')
+    if r1_bad:
+        run.fail('C11-R1', K + 'clip', mod.relpath, cl.lineno,
+                 '%s stores the new solution value %s without clipping it at zero on the path %s: the solution can become negative'
+                 % (fn.name, r1_bad[0][1].key()[:80], r1_bad[0][0]))
+    elif n_paths:
+        run.ok('C11-R1', fn.name + ' clip', 'every one of %d paths stores 0 or a value tested non-negative' % n_paths)
+    run.subject('C11-R2')
+    if r2_bad:
+        what, val, want = r2_bad[0]
+        run.fail('C11-R2', K + 'update', mod.relpath, cl.lineno,
+                 '%s, case %s: the stored value is %s%s' % (fn.name, what, val.key()[:200], ('; documented: %s' % want.key()) if want is not None else ''))
+    elif r2_undec or not obs_seen:
+        run.undecided('C11-R2', fn.name + ' update', '; '.join(r2_undec[:2]) or 'the accumulating path was not reached')
+    else:
         run.ok('C11-R2', fn.name + ' update', 'x + (relaxation / rho_j) sum_i (W_ij / L_i)(b_i - yhat_i)%s ; rho_j = 0: x%s'
                % ((' - penalty_j', ' - penalty_j') if constrained else ('', '')))
-    elif obs_term is not None:
-        run.fail('C11-R2', K + 'update', mod.relpath, br.lineno,
-                 '%s: x_new is %s for rho_j > 0 and %s for rho_j = 0; documented: %s and %s' % (fn.name, got1, got0, want1, want0))
-    # derived arrays
-    want_pre = {'cell_ray_densities': 'np.sum(geometry_matrix, axis=0)', 'ray_lengths': 'np.sum(geometry_matrix, axis=1)',
-                'inv_ray_lengths_mv': '1 / ray_lengths', 'y_hat_vector': 'np.dot(geometry_matrix, solution)'}
-    for k, w in want_pre.items():
-        run.subject('C11-R2')
-        if pre.get(k) == w:
-            run.ok('C11-R2', '%s %s' % (fn.name, k), w, sample=False)
-        else:
-            run.fail('C11-R2', K + 'derived:' + k, mod.relpath, fn.lineno, '%s: %s = %s; documented: %s' % (fn.name, k, pre.get(k), w))
-    it_defs = {norm(t): norm(v) for t, v, st in stores(it) if isinstance(st, ast.Assign)}
+    # loops cover all cells / observations
     run.subject('C11-R2')
-    if it_defs.get('y_hat_vector') == 'np.dot(geometry_matrix, solution_new)' and 'solution_mv[:]' in it_defs and it_defs['solution_mv[:]'] == 'solution_new_mv[:]':
-        run.ok('C11-R2', fn.name + ' iterate update', 'yhat = W x_new ; x := x_new', sample=False)
+    n_s = [st.targets[0] for st in ast.walk(fn) if isinstance(st, ast.Assign) and isinstance(st.targets[0], ast.Tuple) and len(st.targets[0].elts) == 2
+           and norm(st.value) == '%s.shape' % [a.arg for a in fn.args.args][0]]
+    rng_ok = None
+    if n_s:
+        m_, n_ = [norm(e) for e in n_s[0].elts]
+        inner = [l for l in ast.walk(cl) if isinstance(l, ast.For) and l is not cl]
+        rng_ok = norm(cl.iter) == 'range(%s)' % n_ and all(norm(l.iter) == 'range(%s)' % m_ for l in inner)
+    if rng_ok:
+        run.ok('C11-R2', fn.name + ' loop ranges', 'all cells, all observations', sample=False)
+    elif rng_ok is False:
+        run.fail('C11-R2', K + 'ranges', mod.relpath, cl.lineno, '%s does not loop over every cell and every observation' % fn.name)
     else:
-        run.fail('C11-R2', K + 'iterate', mod.relpath, it.lineno, '%s does not refresh yhat = W x_new and copy x_new into x every iteration' % fn.name)
+        run.undecided('C11-R2', fn.name + ' loop ranges', 'shape unpacking not recognised')
+    # every iteration refreshes yhat = G . xnew and copies xnew into x
+    run.subject('C11-R2')
+    yh = [(t, v) for t, v, st in stores(it) if isinstance(t, ast.Name) and isinstance(st, ast.Assign) and roles.get(t.id, '') and
+          str(roles.get(t.id)).startswith('yhat') and not any(x is st for x in ast.walk(cl))]
+    refreshed = [v for t, v in yh if isinstance(v, ast.Call) and dotted(v.func) in ('np.dot', 'numpy.dot') and len(v.args) == 2 and
+                 isinstance(v.args[1], ast.Name)]
+    copy_ok = any(isinstance(t, ast.Subscript) and isinstance(t.value, ast.Name) and roles.get(t.value.id) == 'x' and
+                  isinstance(v, (ast.Subscript, ast.Name)) and roles.get((v.value if isinstance(v, ast.Subscript) else v).id if isinstance(
+                      (v.value if isinstance(v, ast.Subscript) else v), ast.Name) else '') == 'xnew'
+                  for t, v, st in stores(it) if not any(x is st for x in ast.walk(cl)))
+    if refreshed and all(roles.get(v.args[1].id) == 'xnew' or (roles.get(v.args[1].id) == 'x' and copy_ok and _after_copy(it, v)) for v in refreshed) and copy_ok:
+        run.ok('C11-R2', fn.name + ' iterate update', 'yhat = W x_new ; x := x_new', sample=False)
+    elif refreshed and copy_ok:
+        run.fail('C11-R2', K + 'iterate', mod.relpath, it.lineno,
+                 '%s refreshes yhat from %s, not from the new iterate: the next sweep uses stale predictions' % (fn.name, [norm(v) for v in refreshed]))
+    elif not copy_ok and refreshed:
+        run.fail('C11-R2', K + 'iterate', mod.relpath, it.lineno, '%s does not copy x_new into x every iteration' % fn.name)
+    else:
+        run.undecided('C11-R2', fn.name + ' iterate update', 'refresh of yhat not recognised')
     if constrained:
         run.subject('C11-R2')
-        if it_defs.get('grad_penalty') == 'np.dot(laplacian_matrix, solution) * beta_laplace':
-            run.ok('C11-R2', 'penalty', 'beta (Lap x)')
+        pens = [n for n, r in roles.items() if r and str(r).startswith('pen:')]
+        inloop = [t.id for t, v, st in stores(it) if isinstance(t, ast.Name) and t.id in pens]
+        if pens and all(roles[n] == 'pen:x' for n in pens) and inloop:
+            run.ok('C11-R2', 'penalty', 'beta (Lap x), recomputed every iteration')
+        elif pens and any(roles[n] != 'pen:x' for n in pens):
+            run.fail('C11-R2', K + 'penalty', mod.relpath, it.lineno, 'penalty is computed from %s; documented: beta_laplace * (laplacian . x)' % sorted({roles[n] for n in pens}))
+        elif pens and not inloop:
+            run.fail('C11-R2', K + 'penalty', mod.relpath, it.lineno, 'the penalty is not recomputed inside the iteration loop')
         else:
-            run.fail('C11-R2', K + 'penalty', mod.relpath, it.lineno, 'penalty is %s; documented: beta_laplace * (laplacian . x)' % it_defs.get('grad_penalty'))
+            run.undecided('C11-R2', 'penalty', 'beta_laplace * (laplacian . x) not recognised')
     return dict(fn=fn, it=it, cl=cl)
+
+
+def _after_copy(it, dotcall):
+    return False
+
+
+def _roles_with(fn, base):
+    """second pass of _roles with the iterate names known"""
+    roles, defs = _roles(fn)
+    known = {n: r for n, r in base.items() if r in ('x', 'xnew')}
+    # re-run classification with x / xnew seeded: simplest is to patch the helper's seed through parameters
+    ps = [a.arg for a in fn.args.args]
+    lap = ([p for p in ps if 'laplacian' in p] or [None])[0]
+    seed = {ps[0]: 'G', [p for p in ps[1:] if p != lap][0]: 'b'}
+    if lap:
+        seed[lap] = 'Lap'
+    seed.update(known)
+
+    def classify(name, seen=()):
+        if name in seed:
+            return seed[name]
+        if name in seen or name not in defs:
+            return None
+        rs = set()
+        for v in defs[name]:
+            r = None
+            if isinstance(v, ast.Name):
+                r = classify(v.id, seen + (name,))
+            elif isinstance(v, ast.Call) and dotted(v.func) in ('np.sum', 'numpy.sum') and v.args and isinstance(v.args[0], ast.Name) \
+                    and classify(v.args[0].id, seen + (name,)) == 'G':
+                ax = [k.value for k in v.keywords if k.arg == 'axis'] + list(v.args[1:2])
+                if ax and isinstance(ax[0], ast.Constant):
+                    r = {0: 'rho', 1: 'Lr'}.get(ax[0].value)
+            elif isinstance(v, ast.Call) and isinstance(v.func, ast.Attribute) and v.func.attr == 'sum' and isinstance(v.func.value, ast.Name) \
+                    and classify(v.func.value.id, seen + (name,)) == 'G':
+                ax = [k.value for k in v.keywords if k.arg == 'axis'] + list(v.args[:1])
+                if ax and isinstance(ax[0], ast.Constant):
+                    r = {0: 'rho', 1: 'Lr'}.get(ax[0].value)
+            elif isinstance(v, ast.BinOp) and isinstance(v.op, ast.Div) and norm(v.left) in ('1', '1.0') and isinstance(v.right, ast.Name) \
+                    and classify(v.right.id, seen + (name,)) == 'Lr':
+                r = 'invL'
+            elif isinstance(v, ast.Call) and dotted(v.func) in ('np.dot', 'numpy.dot', 'np.matmul') and len(v.args) == 2 \
+                    and all(isinstance(a, ast.Name) for a in v.args):
+                l, rr = classify(v.args[0].id, seen + (name,)), classify(v.args[1].id, seen + (name,))
+                if l == 'G' and rr in ('x', 'xnew'):
+                    r = 'yhat:x'      # whichever iterate it is computed from, inside the sweep it stands for the current prediction
+                elif l == 'Lap' and rr in ('x', 'xnew'):
+                    r = 'lapx:' + rr
+            elif isinstance(v, ast.BinOp) and isinstance(v.op, ast.Mult):
+                for p_, q_ in ((v.left, v.right), (v.right, v.left)):
+                    if isinstance(p_, ast.Call) and dotted(p_.func) in ('np.dot', 'numpy.dot') and len(p_.args) == 2 and all(isinstance(a, ast.Name) for a in p_.args) \
+                            and classify(p_.args[0].id, seen + (name,)) == 'Lap' and norm(q_) == 'beta_laplace':
+                        r = 'pen:' + str(classify(p_.args[1].id, seen + (name,)))
+            rs.add(r)
+        rs.discard(None) if len(rs) > 1 and all(str(x).startswith('yhat') for x in rs if x) else None
+        if len(rs) == 1:
+            return rs.pop()
+        return None
+    out = {n: classify(n) for n in defs}
+    out.update(seed)
+    return out, defs
+
+
+def _decision(dec, leaf, roles, positive, keys=None):
+    """Truth of 'quantity > 0' (positive) or 'quantity == 0' (not positive) on the path, from the recorded decisions."""
+    for k, b in dec.items():
+        if keys is not None and k not in keys:
+            continue
+        m = re.match(r'^(.+?) (==|!=|>|<=|<|>=) 0(\.0)?$', k)
+        if not m:
+            continue
+        base = m.group(1)
+        arr = base.split('[')[0]
+        if keys is None:
+            if roles.get(arr) != 'rho':
+                continue
+        op = m.group(2)
+        if positive:
+            if op == '>':
+                return b
+            if op == '<=':
+                return not b
+            if op == '!=':
+                return b
+            if op == '==':
+                return not b
+        else:
+            if op == '==':
+                return b
+            if op == '!=':
+                return not b
+            if op == '>':
+                return not b
+            if op == '<=':
+                return b
+    return None
+
+
+def _tests_stored_value(synth, store_node, tests):
+    """One of the recorded clip tests is on the local that is stored."""
+    v = store_node.value if isinstance(store_node, ast.Assign) else None
+    if isinstance(v, ast.Name):
+        return any(k.split(' ')[0] == v.id for k, b in tests)
+    return False
 
 
 def _strip(fn):
@@ -216,6 +465,229 @@ def _siblings(run, mod, forms):
             run.fail('C11-R3', '%s|%s|result' % (mod.name, name), mod.relpath, fn.lineno, '%s returns %s' % (name, norm(ret[-1].value) if ret else None))
 
 
+class _Stack:
+    """vertical block matrix / vector [top; bottom] with top of m rows"""
+
+    def __init__(self, top, bottom):
+        self.top, self.bottom = top, bottom
+
+    def map(self, f):
+        return _Stack(f(self.top), f(self.bottom))
+
+    def key(self):
+        return '[%s ; %s]' % (self.top.key(), self.bottom.key())
+
+
+class _HStack:
+    def __init__(self, left, right):
+        self.left, self.right = left, right
+
+
+class _Undec(Exception):
+    pass
+
+
+def _transpose(v):
+    if isinstance(v, _HStack):
+        return _Stack(_transpose(v.left), _transpose(v.right))
+    if isinstance(v, _Stack):
+        return _HStack(_transpose(v.top), _transpose(v.bottom))
+    if isinstance(v, Rat):
+        if v.is_const():
+            return v
+        leaves = sorted(v.leaves())
+        arr = [l for l in leaves if l.isupper() or l.endswith("'")]
+        if len(arr) == 1:
+            a0 = arr[0]
+            t = a0[:-1] if a0.endswith("'") else (a0 if a0 == 'I' else a0 + "'")
+            return v.subst({a0: L(t)})
+        if not arr:
+            return v
+    raise _Undec('transpose of %s' % getattr(v, 'key', lambda: v)())
+
+
+def _stack_eval(fn, solver, tik_given):
+    """Abstractly run fn. Arrays are leaves W, B, T (I when the Tikhonov matrix is not given), scalars keep their names.
+    Returns (solver arguments, returned tuple) with the solver result as leaves X*, R*."""
+    w, b, alpha, tik = [a.arg for a in fn.args.args[:4]]
+    env = {w: L('W'), b: L('B'), alpha: L('alpha'), tik: (L('T') if tik_given else None)}
+    out = {}
+
+    def full_slice(sl):
+        els = sl.elts if isinstance(sl, ast.Tuple) else [sl]
+        return all(isinstance(e, ast.Slice) and e.lower is None and e.upper is None and e.step is None for e in els)
+
+    def row_part(sl):
+        """'top' for [0:m(, :)] / [:m(, :)], 'bottom' for [m:(, :)]"""
+        els = sl.elts if isinstance(sl, ast.Tuple) else [sl]
+        e0 = els[0]
+        if not isinstance(e0, ast.Slice) or e0.step is not None or not all(full_slice(x) for x in els[1:]):
+            return None
+        lo = None if e0.lower is None or norm(e0.lower) == '0' else ev(e0.lower)
+        hi = None if e0.upper is None else ev(e0.upper)
+        if lo is None and isinstance(hi, Rat) and hi.eq(L('m')):
+            return 'top'
+        if hi is None and isinstance(lo, Rat) and lo.eq(L('m')):
+            return 'bottom'
+        return None
+
+    def seq(e):
+        if isinstance(e, (ast.Tuple, ast.List)):
+            return [ev(x) for x in e.elts]
+        raise _Undec(norm(e))
+
+    def ev(e):
+        if isinstance(e, ast.Constant):
+            if e.value is None:
+                return None
+            if isinstance(e.value, (int, float)) and not isinstance(e.value, bool):
+                return C(e.value) if isinstance(e.value, int) else L(repr(e.value))
+            raise _Undec(norm(e))
+        if isinstance(e, ast.Name):
+            if e.id in env:
+                return env[e.id]
+            raise _Undec('unbound %s' % e.id)
+        if isinstance(e, ast.Attribute):
+            if e.attr == 'T':
+                return _transpose(ev(e.value))
+            if e.attr == 'shape':
+                return ('shape', ev(e.value))
+            raise _Undec(norm(e))
+        if isinstance(e, ast.UnaryOp) and isinstance(e.op, ast.USub):
+            return _neg(ev(e.operand))
+        if isinstance(e, ast.BinOp):
+            l, r = ev(e.left), ev(e.right)
+            return _arith(type(e.op), l, r, e)
+        if isinstance(e, ast.Subscript):
+            base = ev(e.value)
+            if isinstance(base, tuple) and base and base[0] == 'result' and isinstance(e.slice, ast.Constant):
+                return base[1][e.slice.value] if e.slice.value < len(base[1]) else L('_')
+            if full_slice(e.slice):
+                return base
+            if isinstance(base, _Stack):
+                part = row_part(e.slice)
+                if part:
+                    return getattr(base, part)
+            if isinstance(base, Rat):
+                return L('SEL(%s)[%s]' % (base.key(), norm(e.slice)))
+            raise _Undec(norm(e))
+        if isinstance(e, ast.Call):
+            d = dotted(e.func) or ''
+            if d in ('np.identity', 'np.eye', 'numpy.identity', 'numpy.eye'):
+                return L('I')
+            if d in ('np.zeros', 'numpy.zeros', 'np.zeros_like'):
+                a0 = e.args[0]
+                if isinstance(a0, ast.Tuple):
+                    rows = ev(a0.elts[0])
+                else:
+                    rows = ev(a0)
+                if isinstance(rows, Rat) and rows.eq(L('m') + L('n')):
+                    return _Stack(C(0), C(0))
+                return C(0)
+            if d in ('np.asarray', 'np.array', 'np.asanyarray', 'np.ascontiguousarray', 'np.copy') and e.args:
+                return ev(e.args[0])
+            if d in ('np.vstack', 'np.row_stack') and len(e.args) == 1:
+                xs = seq(e.args[0])
+                if len(xs) == 2:
+                    return _Stack(xs[0], xs[1])
+            if d in ('np.concatenate', 'np.append', 'np.hstack'):
+                ax = [k.value for k in e.keywords if k.arg == 'axis']
+                axis = ax[0].value if ax and isinstance(ax[0], ast.Constant) else 0
+                xs = seq(e.args[0]) if d != 'np.append' else [ev(e.args[0]), ev(e.args[1])]
+                if d == 'np.hstack':
+                    axis = 1
+                if len(xs) == 2:
+                    return _Stack(xs[0], xs[1]) if axis == 0 else _HStack(xs[0], xs[1])
+            if d == solver:
+                out['args'] = [ev(a) for a in e.args]
+                return ('result', [L('X*'), L('R*'), L('_'), L('_')])
+            if isinstance(e.func, ast.Attribute) and e.func.attr in ('max', 'min', 'sum', 'mean') and not e.args:
+                v = ev(e.func.value)
+                return L('%s(%s)' % (e.func.attr, v.key()))
+            if isinstance(e.func, ast.Attribute) and e.func.attr in ('copy', 'astype', 'transpose') and e.func.attr != 'transpose':
+                return ev(e.func.value)
+            if isinstance(e.func, ast.Attribute) and e.func.attr == 'transpose' and not e.args:
+                return _transpose(ev(e.func.value))
+            if d in ('np.max', 'np.amax', 'max') and len(e.args) == 1:
+                return L('max(%s)' % ev(e.args[0]).key())
+            if d in ('np.transpose',) and len(e.args) == 1:
+                return _transpose(ev(e.args[0]))
+            return L('?%s' % norm(e)[:40])
+        if isinstance(e, ast.Tuple):
+            return tuple(ev(x) for x in e.elts)
+        if isinstance(e, (ast.Compare, ast.BoolOp)):
+            return L('?%s' % norm(e)[:40])
+        raise _Undec(norm(e)[:60])
+
+    def _neg(v):
+        return v.map(_neg) if isinstance(v, _Stack) else -v
+
+    def _arith(op, l, r, node):
+        if isinstance(l, _Stack) and isinstance(r, Rat):
+            return l.map(lambda x: _arith(op, x, r, node))
+        if isinstance(r, _Stack) and isinstance(l, Rat) and op in (ast.Mult, ast.Add):
+            return r.map(lambda x: _arith(op, l, x, node))
+        if isinstance(l, Rat) and isinstance(r, Rat):
+            return {ast.Add: lambda: l + r, ast.Sub: lambda: l - r, ast.Mult: lambda: l * r, ast.Div: lambda: l / r}.get(op, lambda: (_ for _ in ()).throw(_Undec(norm(node))))()
+        raise _Undec(norm(node)[:60])
+
+    def block(stmts):
+        for st in stmts:
+            if isinstance(st, ast.Expr):
+                continue
+            if isinstance(st, ast.Return):
+                out['ret'] = ev(st.value) if st.value is not None else None
+                return True
+            if isinstance(st, ast.Assign) and len(st.targets) == 1:
+                t = st.targets[0]
+                if isinstance(t, ast.Tuple):
+                    v = ev(st.value)
+                    if isinstance(v, tuple) and v and v[0] == 'shape':
+                        if v[1] is env[w] or (isinstance(v[1], Rat) and v[1].eq(L('W'))):
+                            env[t.elts[0].id], env[t.elts[1].id] = L('m'), L('n')
+                            continue
+                        raise _Undec('shape of %s' % norm(st.value))
+                    if isinstance(v, tuple) and v and v[0] == 'result':
+                        for k, x in enumerate(t.elts):
+                            if isinstance(x, ast.Name):
+                                env[x.id] = v[1][k] if k < len(v[1]) else L('_')
+                        continue
+                    raise _Undec(norm(st)[:60])
+                if isinstance(t, ast.Name):
+                    env[t.id] = ev(st.value)
+                    continue
+                if isinstance(t, ast.Subscript) and isinstance(t.value, ast.Name):
+                    base = env.get(t.value.id)
+                    v = ev(st.value)
+                    if isinstance(base, _Stack):
+                        part = row_part(t.slice)
+                        if part:
+                            env[t.value.id] = _Stack(v if part == 'top' else base.top, v if part == 'bottom' else base.bottom)
+                            continue
+                    raise _Undec(norm(st)[:60])
+                raise _Undec(norm(st)[:60])
+            if isinstance(st, ast.If):
+                t = st.test
+                neg = False
+                if isinstance(t, ast.UnaryOp) and isinstance(t.op, ast.Not):
+                    t, neg = t.operand, True
+                if isinstance(t, ast.Compare) and len(t.ops) == 1 and norm(t.left) == tik and norm(t.comparators[0]) == 'None' \
+                        and isinstance(t.ops[0], (ast.Is, ast.IsNot)):
+                    truth = (not tik_given) if isinstance(t.ops[0], ast.Is) else tik_given
+                    if neg:
+                        truth = not truth
+                    if block(st.body if truth else st.orelse):
+                        return True
+                    continue
+                if all(isinstance(x, ast.Raise) for x in st.body) and not st.orelse:
+                    continue       # argument validation
+                raise _Undec('condition %s' % norm(st.test)[:60])
+            raise _Undec(norm(st)[:60])
+        return False
+    block(fn.body)
+    return out
+
+
 def _stacked(run, prog):
     run.describe('C11-R4', 'stacked system [W; alpha L] x = [b; 0]; common scaling of both NNLS arguments; solver output returned unmodified')
     for modname, fname, solver in (('cherab.tools.inversions.nnls', 'invert_regularised_nnls', 'scipy.optimize.nnls'),
@@ -226,51 +698,72 @@ def _stacked(run, prog):
             raise AnalysisError('anchored function vanished: %s' % fname)
         run.functions += 1
         K = '%s|%s|' % (modname, fname)
-        w, b, alpha, tik = [a.arg for a in fn.args.args[:4]]
-        d = {}
-        for st in fn.body:
-            if isinstance(st, ast.Assign):
-                d.setdefault(norm(st.targets[0]), []).append(norm(st.value))
-            elif isinstance(st, ast.If):
-                for s2 in st.body:
-                    if isinstance(s2, ast.Assign):
-                        d.setdefault(norm(s2.targets[0]), []).append(norm(s2.value))
-        run.subject('C11-R4')
-        want = {'c_matrix[0:m, :]': ['%s[:, :]' % w], 'c_matrix[m:, :]': ['%s[:, :]' % tik], 'd_vector[0:m]': ['%s[:]' % b],
-                'c_matrix': ['np.zeros((m + n, n))'], 'd_vector': ['np.zeros(m + n)'], '(m, n)': ['%s.shape' % w]}
-        bad = {k: d.get(k) for k, v in want.items() if d.get(k) != v}
-        tk = d.get(tik, [])
-        if not bad and tk == ['np.identity(n)', '%s * %s' % (alpha, tik)]:
-            run.ok('C11-R4', fname + ' stacked system', '[W; alpha L], [b; 0]')
-        else:
-            run.fail('C11-R4', K + 'stacked-system', mi.relpath, fn.lineno,
-                     '%s does not assemble [W; alpha L] and [b; 0]: %s ; tikhonov = %s' % (fname, bad, tk))
-        call = [c for c in ast.walk(fn) if isinstance(c, ast.Call) and dotted(c.func) == solver]
-        ret = [r for r in ast.walk(fn) if isinstance(r, ast.Return)]
-        run.subject('C11-R4')
-        if not call or not ret:
-            run.fail('C11-R4', K + 'solver-call', mi.relpath, fn.lineno, '%s does not call %s' % (fname, solver))
-            continue
-        args = [norm(a) for a in call[0].args]
-        rv = norm(ret[-1].value)
-        if solver.endswith('nnls'):
-            m_ = re.match(r'c_matrix / (\w+)$', args[0])
-            ok = m_ and args[1] == 'd_vector / %s' % m_.group(1) and rv == '(x_vector, rnorm * %s)' % m_.group(1) \
-                and d.get('(x_vector, rnorm)') is not None and d.get(m_.group(1)) is not None
-            if ok:
-                run.ok('C11-R4', fname + ' scaling', 'nnls(C / s, d / s); norm * s; x returned unmodified')
+        for tik_given in (False, True):
+            tag = '%s (%s)' % (fname, 'Tikhonov matrix given' if tik_given else 'default identity')
+            run.subject('C11-R4')
+            try:
+                out = _stack_eval(fn, solver, tik_given)
+            except _Undec as e:
+                run.undecided('C11-R4', tag, 'cannot interpret %s' % e)
+                continue
+            if 'args' not in out or len(out['args']) < 2 or 'ret' not in out:
+                run.fail('C11-R4', K + 'solver-call', mi.relpath, fn.lineno, '%s does not call %s and return its result' % (fname, solver))
+                continue
+            A, Bv = out['args'][0], out['args'][1]
+            Lm = L('T') if tik_given else L('I')
+            if not isinstance(A, _Stack) or not isinstance(Bv, _Stack):
+                run.undecided('C11-R4', tag, 'solver arguments are not recognised as stacked blocks')
+                continue
+            opaque = [l for blk in (A.top, A.bottom, Bv.top, Bv.bottom) for l in blk.leaves() if l.startswith('?')]
+            sel = [l for blk in (A.top, A.bottom, Bv.top, Bv.bottom) for l in blk.leaves() if l.startswith('SEL(')]
+            if sel:
+                run.fail('C11-R4', K + 'stacked-system', mi.relpath, fn.lineno,
+                         '%s: the solver is given %s: a selection of rows/columns instead of the whole of W, b and L, so the minimised objective '
+                         'and the reported norm are not those of |Wx-b|^2 + alpha^2 |Lx|^2' % (tag, sel[0][:80]))
+                continue
+            if opaque:
+                run.undecided('C11-R4', tag, 'uninterpreted terms in the solver arguments: %s' % opaque[:2])
+                continue
+            # common scale s: A.top = W / s
+            probs = []
+            s_ = None
+            try:
+                s_ = L('W') / A.top
+            except ZeroDivisionError:
+                probs.append('the upper block of the matrix is zero')
+            if s_ is not None:
+                if any(l.startswith('SEL(') or l in ('W', "W'") for l in s_.leaves()):
+                    probs.append('the upper block of the matrix is %s, not W' % A.top.key())
+                else:
+                    if not (A.bottom * s_).eq(L('alpha') * Lm):
+                        probs.append('the lower block of the matrix is %s, expected alpha * %s%s' % (
+                            A.bottom.key(), 'L' if tik_given else 'I', '' if s_.eq(C(1)) else ' / %s' % s_.key()))
+                    if not (Bv.top * s_).eq(L('B')):
+                        probs.append('the upper block of the right-hand side is %s, expected b%s' % (Bv.top.key(), '' if s_.eq(C(1)) else ' / %s' % s_.key()))
+                    if not (Bv.bottom.is_const() and Bv.bottom.const_value() == 0):
+                        probs.append('the lower block of the right-hand side is %s, expected zeros' % Bv.bottom.key())
+            if probs:
+                run.fail('C11-R4', K + 'stacked-system', mi.relpath, fn.lineno, '%s: %s' % (tag, '; '.join(probs)))
+                continue
+            run.ok('C11-R4', tag + ' stacked system', '[W; alpha L] / s, [b; 0] / s with s = %s' % s_.key())
+            run.subject('C11-R4')
+            ret = out['ret']
+            if not (isinstance(ret, tuple) and len(ret) == 2 and all(isinstance(x, Rat) for x in ret)):
+                run.undecided('C11-R4', tag + ' result', 'returned value not recognised')
+            elif not ret[0].eq(L('X*')):
+                run.fail('C11-R4', K + 'solution-modified', mi.relpath, fn.lineno, '%s returns %s as the solution instead of the solver output' % (tag, ret[0].key()))
+            elif solver.endswith('nnls') and not ret[1].eq(L('R*') * s_):
+                run.fail('C11-R4', K + 'scaling', mi.relpath, fn.lineno,
+                         '%s: the system is divided by %s but the returned norm is %s: the reported residual norm is not that of the solution' % (tag, s_.key(), ret[1].key()))
+            elif not solver.endswith('nnls') and not ret[1].eq(L('R*')):
+                run.fail('C11-R4', K + 'solver-call', mi.relpath, fn.lineno, '%s returns %s as the residuals' % (tag, ret[1].key()))
             else:
-                run.fail('C11-R4', K + 'scaling', mi.relpath, call[0].lineno,
-                         '%s calls nnls(%s) and returns %s: the two arguments are not scaled by one scalar that is undone on the norm' % (fname, ', '.join(args), rv))
-        else:
-            kws = {k.arg: norm(k.value) for k in call[0].keywords}
-            if args == ['c_matrix', 'd_vector'] and rv == '(x_vector, residuals)' and '(x_vector, residuals, _, _)' in d:
-                run.ok('C11-R4', fname + ' solver call', 'lstsq(C, d); x and residuals returned unmodified')
-            else:
-                run.fail('C11-R4', K + 'solver-call', mi.relpath, call[0].lineno, '%s calls lstsq(%s) and returns %s' % (fname, ', '.join(args), rv))
+                run.ok('C11-R4', tag + ' result', 'solver output returned, norm rescaled by the same factor')
 
 
 MUTANTS = [
+    dict(name='lstsq-tikhonov-block-transposed', file=LSTSQ, find="    c_matrix = np.zeros((m+n, n))\n    c_matrix[0:m, :] = w_matrix[:, :]\n    c_matrix[m:, :] = tikhonov_matrix[:, :]\n", replace="    c_matrix = np.concatenate((w_matrix.T, tikhonov_matrix), axis=1).T\n", expect='C11-R4'),
+    dict(name='nnls-drops-unobserved-rows', file=NNLS, find="    m, n = w_matrix.shape\n", replace="    observed = np.any(w_matrix != 0, axis=1)\n    w_matrix = w_matrix[observed, :]\n    b_vector = b_vector[observed]\n    m, n = w_matrix.shape\n", expect='C11-R4'),
     dict(name='clip-removed', file=SART, find="            if x_j_new < 0:\n                x_j_new = 0.0\n", replace="", occurrence=0, of=2, expect='C11-R1'),
     dict(name='penalty-sign', file=SART, find="x_j_new = x_j + relax_over_density * obs_diff - grad_penalty_mv[jth_cell]", replace="x_j_new = x_j + relax_over_density * obs_diff + grad_penalty_mv[jth_cell]", expect='C11-R2'),
     dict(name='relaxation-times-density', file=SART, find="relax_over_density = relaxation / cell_ray_densities_mv[jth_cell]", replace="relax_over_density = relaxation * cell_ray_densities_mv[jth_cell]", occurrence=1, of=2, expect='C11-R2'),
@@ -284,5 +777,8 @@ MUTANTS = [
     dict(name='ray-lengths-wrong-axis', file=SART, find="    ray_lengths = np.sum(geometry_matrix, axis=1)", replace="    ray_lengths = np.sum(geometry_matrix, axis=0)", occurrence=0, of=2, expect='C11-R2'),
 ]
 TWINS = [
+    dict(name='lstsq-vstack', file=LSTSQ, find="    c_matrix = np.zeros((m+n, n))\n    c_matrix[0:m, :] = w_matrix[:, :]\n    c_matrix[m:, :] = tikhonov_matrix[:, :]\n", replace="    c_matrix = np.vstack((w_matrix, tikhonov_matrix))\n"),
+    dict(name='sart-positive-length-guard', file=SART, find="                    if ray_lengths_mv[ith_obs] == 0:\n                        continue\n                    prop_ray_length = geometry_matrix_mv[ith_obs, jth_cell] * inv_ray_lengths_mv[ith_obs]  # fraction of ray length/volume\n                    obs_diff += prop_ray_length * (obs_vector_mv[ith_obs] - y_hat_vector_mv[ith_obs])",
+         replace="                    if ray_lengths_mv[ith_obs] != 0:\n                        obs_diff += geometry_matrix_mv[ith_obs, jth_cell] / ray_lengths_mv[ith_obs] * (obs_vector_mv[ith_obs] - y_hat_vector_mv[ith_obs])", occurrence=0, of=2),
     dict(name='penalty-hoisted', file=SART, find="        grad_penalty = np.dot(laplacian_matrix, solution) * beta_laplace", replace="        grad_penalty = np.dot(laplacian_matrix, solution) * beta_laplace  # (Lap x) scaled"),
 ]
